@@ -198,6 +198,33 @@ def run (f : Fix) (c : Codec B R) : St B R → List (Call B) → St B R
   | st, [] => st
   | st, call :: t => run f c (refine f c st call).st t
 
+/-- what can happen on one `Shelxfile` object between two `refine()` calls: the user re-reads the model —
+    `reload()` / `read_file()` of the .res as it is (`load none`), or after the file has been rewritten by hand or by
+    another program (`load (some b)`).  This is also how a model gains, loses or changes its ACTA card. -/
+inductive Step (B : Type)
+  | call (k : Call B)
+  | load (w : Option B)
+  deriving DecidableEq, Repr
+
+/-- `read_file`: the object is rebuilt from the file and from nothing else (`none`: no file, FileNotFoundError) -/
+def load (c : Codec B R) (st : St B R) (w : Option B) : Option (St B R) :=
+  let fs : FS B := match w with
+    | some b => { st.fs with res := some b }
+    | none => st.fs
+  match fs.res with
+  | some b => some ⟨fs, ⟨(c.parse b).1, (c.parse b).2, 0⟩⟩
+  | none => none
+
+/-- a history of calls and re-reads on one object: for every `refine()` call the state before it and its result.
+    There is nothing else a call could depend on: `ShelxlRefine` (and the ACTA text it keeps) lives for one call. -/
+def traceSteps (f : Fix) (c : Codec B R) : St B R → List (Step B) → List (St B R × Call B × Result B R)
+  | _, [] => []
+  | st, .call k :: t => (st, k, refine f c st k) :: traceSteps f c (refine f c st k).st t
+  | st, .load w :: t =>
+    match load c st w with
+    | some st' => traceSteps f c st' t
+    | none => []
+
 /-! ### specification (from the property text, not from the code) -/
 
 /-- the external run failed: non-zero exit status, or an empty or missing result file -/
@@ -289,5 +316,14 @@ def history (c : Codec B R) : St B R → List (Call B) → Bool
   | _, [] => true
   | st, call :: t =>
     plausible c st.fs.res call.out && history c (refine Fix.all c st call).st t
+
+/-- `plausible` at every call of a history with re-reads -/
+def stepsPlausible (c : Codec B R) : St B R → List (Step B) → Bool
+  | _, [] => true
+  | st, .call k :: t => plausible c st.fs.res k.out && stepsPlausible c (refine Fix.all c st k).st t
+  | st, .load w :: t =>
+    match load c st w with
+    | some st' => stepsPlausible c st' t
+    | none => true
 
 end Shelx.C19
